@@ -20,10 +20,10 @@ RWG/SNC the sign is cross-checked against the rule "+1 on the supported neighbou
 "Up to singular-quadrature error" is made precise by an order ladder: with the regular order fixed, the discrepancy
 d(o) = ||A'_o - Q_t A_o Q_d^T||_F / ||A_o||_F is measured at two singular orders o_lo < o_hi and compared with the
 singular-quadrature error estimate of the same grid and operator e(o) = ||A_o - A_{o_ref}||_F / ||A_{o_ref}||_F
-(o_ref = o_hi + 2, all with the same labelling).  Required:
-        d(o_hi) <= max(1e-11, SLACK * e(o_hi))      (the statement of Appendix C: 10 x error estimate; SLACK = 10)
-   and  d(o_hi) <= max(1e-11, DECAY * d(o_lo))      (the discrepancy shrinks; DECAY = 0.5, calibrated: observed
-                                                     ratios are below 0.06, see CALIBRATION)
+(o_ref = o_hi + 2, all with the same labelling).  Required (floor 1e-11 for discrepancies already at rounding):
+        d(o_hi) <= SLACK * e(o_hi)    the statement of Appendix C: 10 x the error estimate of the same grid (SLACK = 10)
+        d(o_hi) <= CAP                calibrated bound for the grid pool of this module (CAP = 3e-3)
+        d(o_hi) <= DECAY * d(o_lo)    the discrepancy shrinks at the rate of the Duffy rules (DECAY = 0.25)
 
 Homogeneity table (ii) - derived from the local integrals and verified against the code by this oracle.  Under
 x -> s x the surface measure scales by s^2 per integral, P0/P1/DP1 basis functions are scale invariant, surface
@@ -42,9 +42,12 @@ gradients/curls scale by 1/s, and RWG/SNC basis functions  l_e/(2|T|) (x - p)  a
    sparse identity (scalar pairs, RWG/SNC)      f g : s^0 ; dS : s^2                         s^2
    Laplace-Beltrami (P1/DP1)                    grad f . grad g : s^-2 ; dS : s^2            s^0
 
-CALIBRATION (this tree, seeds 0-3, both tiers, see `res.stats`): exact relations (i)-(iii) worst 3e-14 relative
-(tolerance 1e-11); ladder o_lo = 3, o_hi = 6, o_ref = 8: discrepancies d(3) in 1e-6..4e-3, d(6) in 1e-10..6e-6,
-ratio d(6)/d(3) <= 0.06, d(6)/e(6) <= 2.6.
+CALIBRATION (this tree, thorough tier with all 34 operator x shapeset-pair specialisations, seeds 0-3, 150 ladder
+cases and 360 exact cases per seed, see `res.stats`): exact relations (i)-(iii) and all five relations for the sparse
+operators: worst 1.8e-14 relative (rigid motion; tolerance 1e-11).  Ladder o_lo = 3, o_hi = 6, o_ref = 8: d(3) <= 1.0e-2,
+d(6) <= 3.3e-4 (CAP 3e-3), d(6)/d(3) <= 0.075 (DECAY 0.25), d(6)/e(6) <= 2.6 (SLACK 10); about 7% of the ladder cases
+are at rounding already.  A seeded error in the edge-adjacent Duffy remap (which only slows the convergence of the
+singular rule) gives d(6) = 5e-3 and d(6)/d(3) = 0.37.
 
 Non-triviality rule (Appendix C): the transformation is not the identity and the grid has at least one edge-adjacent
 and one vertex-adjacent element pair.
@@ -61,7 +64,7 @@ from vlib.common import Ctx, Result
 
 TOL_EXACT = 1e-11
 SLACK = 10.0
-DECAY = 0.2
+DECAY = 0.25
 CAP = 3e-3
 O_LO, O_HI, O_REF = 3, 6, 8
 REG_ORDER = 4
@@ -708,8 +711,9 @@ def oracle(ctx, deep=False, only=None):
         order = grids[i % len(grids):] + grids[: i % len(grids)]
         return order[:n_grids]
 
-    # sparse operators first (cheap to compile), then the dense ones until the budget is used
-    for i, (key, pair, kvar) in enumerate(sparse + plan):
+    # one dense operator first (so that a run cut short by the budget on a loaded machine still has ladder cases), then
+    # the sparse ones, then the remaining dense ones until the budget is used
+    for i, (key, pair, kvar) in enumerate(plan[:1] + sparse + plan[1:]):
         el = time.time() - t_start
         avg = (sum(per_spec) / len(per_spec)) if per_spec else 30.0
         if done and el + avg > budget:
